@@ -10,6 +10,7 @@ from the generated messages; status requests go through the REAL evaluator modul
 compared with the extracted composed model (Pipeline.pipe_step), and - independently of the model - with the end-to-end
 oracle of pipegen.Oracle, which is computed from the events alone."""
 import json
+import os
 
 import clustergen
 import common as C
@@ -88,6 +89,8 @@ def _jsonable(case):
             evs.append(["K", e[1], e[2], e[3].hex(), e[4].hex(), e[5]])
         elif e[0] == "S":
             evs.append(["S", e[1], e[2].hex(), e[3]])
+        elif e[0] == "P":
+            evs.append(["P", e[1], [[[o, k.hex(), v.hex(), tg] for (o, k, v, tg) in lst] for lst in e[2]]])
         elif e[0] == "Y":
             cyc = dict(e[2])
             cyc["failing"] = sorted(cyc["failing"])
@@ -105,6 +108,8 @@ def _from_json(obj):
             evs.append(("K", e[1], e[2], bytes.fromhex(e[3]), bytes.fromhex(e[4]), e[5]))
         elif e[0] == "S":
             evs.append(("S", e[1], bytes.fromhex(e[2]), e[3]))
+        elif e[0] == "P":
+            evs.append(("P", e[1], [[(o, bytes.fromhex(k), bytes.fromhex(v), tg) for (o, k, v, tg) in lst] for lst in e[2]]))
         elif e[0] == "Y":
             cyc = dict(e[2])
             cyc["failing"] = set(cyc["failing"])
@@ -119,7 +124,7 @@ def _from_json(obj):
 
 
 def run(chk, failed):
-    n = 5000 if not chk.thorough else 150000
+    n = int(os.environ.get("VERIF_PIPE_N", "0")) or (4000 if not chk.thorough else 150000)
     cases = []
     for ln in C.read_corpus(chk.pid):
         cases.append(_from_json(json.loads(ln)))
@@ -127,14 +132,18 @@ def run(chk, failed):
     for _ in range(n):
         cases.append(G.gen_case(chk.rng))
     chk.rule = (
-        "one life of a small Burrow per case: 1-2 clusters, each with a clustergen scenario (1-6 getOffsets cycles: leader "
+        "one life of a small Burrow per case: 1-2 clusters, each with a clustergen scenario run by the real cluster module "
+        "configured through Configure with a client-profile kafka-version drawn from 19 legal strings (the scripted broker "
+        "answers in the wire format of the request version), (1-6 getOffsets cycles: leader "
         "loss/change, failing Topics/Partitions/Leader/broker calls, per-partition errors, topics vanishing / re-appearing, "
         "partitions added; partition ids 0..n-1 and an offset in every ErrNoError answer), 8-45 events: well-formed offset "
         "commits (key v0/v1, value v0/v1/v3) for 1-5 groups aimed at the partitions and offsets the brokers answer (behind / at / "
         "ahead / int64 extremes; timestamps around now, at the expire-group limit, in seconds, extreme; log positions "
         "ascending, replayed, backfilled, extreme), group metadata (0-3 members owning those partitions), group and commit "
         "tombstones, hostile messages (wiregen's C06 stream and the case's own commits cut short or with changed version "
-        "fields), clock moves (incl. across expire-group), status requests in both views and both orders, reader and storage "
+        "fields), concurrent batches (focus conc and 4 % of the other cases: 8-16 goroutines push 6-30 messages each for "
+        "pairwise disjoint groups through processConsumerOffsetsMessage of the one module at once), clock moves (incl. across "
+        "expire-group), status requests in both views and both orders, consumer-list requests, reader and storage "
         "allow/deny lists from the pattern pool; intervals 1-10, min-distance 0/1/5, minimum-complete and allowed-lag from "
         "small pools.  non-trivial = the oracle checked CurrentLag of at least one partition with a stored commit against the "
         "brokers' last answer; distinct by the rendered case line")
@@ -148,6 +157,8 @@ def run(chk, failed):
             chk.count(t)
         for ev in case["events"]:
             chk.count("event:" + (ev[0] if ev[0] != "K" else "K:" + ev[5]))
+            if ev[0] == "P":
+                chk.count("concurrent goroutines", len(ev[2]))
         if "PROBE-PANIC" in a:
             orc.append((i, ["the probe recovered a panic: " + a[-300:]]))
             continue
@@ -219,6 +230,8 @@ def run(chk, failed):
         "cluster environments: partition ids 0..n-1 (C11 env_ids_ok), an offset in every ErrNoError answer (env_offsets_ok), "
         "int64 offsets; the real cluster module's requests are carried from its own probe process into the storage channel by "
         "the harness, deletions before updates, updates in sorted order (goroutine order in the real module)",
+        "concurrent batches: the groups of different goroutines are disjoint, so every interleaving that keeps each goroutine's "
+        "order leaves the same observable state (C08: per-group FIFO + frame); the model runs the lists one after the other",
         "names: cluster names are configuration; topic ids n of the cluster tables are the names t<n>; the model's interning "
         "function is the driver's table (injective, \"\" -> 0)",
     ]
